@@ -1,5 +1,58 @@
 import XsVerif.Driver.Util
-open Lean XsVerif.Driver
+import XsVerif.Model.Lazy
+import XsVerif.Model.SchemaPaths
+import XsVerif.Driver.LazyUtil
+open Lean XsVerif.Driver XsVerif.Lazy XsVerif.SchemaPaths
 
--- stub: replaced when the model of C20 lands
-def main : IO Unit := XsVerif.Driver.run fun _ => .error "C20 driver not implemented"
+namespace XsVerif.Driver.C20
+open XsVerif.Driver.LazyUtil
+
+structure Row where
+  decl : Decl
+  kids : List Nat
+
+def parseRow (j : Json) : Except String Row := do
+  let name := match j.getObjValAs? String "name" with
+    | .ok s => some s
+    | .error _ => none
+  return { decl := { id := ← getNat j "id", name, subst := ← getStrList j "subst", wc := ← getStrList j "wc",
+                     ty := ← getNat j "ty" },
+           kids := ← natList (← j.getObjVal? "kids") }
+
+def mkSchema (rows : List Row) (globals : List Nat) : Schema :=
+  let get (i : Nat) : Option Decl := (rows.find? fun r => r.decl.id == i).map (·.decl)
+  { globals := globals.filterMap get,
+    kids := fun d => match rows.find? fun r => r.decl.id == d.id with
+      | some r => r.kids.filterMap get
+      | none => [] }
+
+def handle (j : Json) : Except String Json := do
+  let op ← getStr j "op"
+  match op with
+  | "findall" | "get_element" =>
+    let rows ← (← getArr j "decls").toList.mapM parseRow
+    let S := mkSchema rows (← natList (← j.getObjVal? "globals"))
+    let steps ← getStrList j "steps"
+    if op == "findall" then
+      return Json.mkObj [("ids", natArr ((findAll S steps).map (·.id))),
+                         ("gov", match gov S steps with | some d => toJson d.id | none => Json.null)]
+    else
+      let r := getElement S (← getStr j "tag") steps (← getBool j "star")
+      return Json.mkObj [("id", match r with | some d => toJson d.id | none => Json.null)]
+  | "part" =>
+    let t ← parseTree (← j.getObjVal? "tree")
+    let k ← getNat j "k"
+    let d ← getNat j "root"
+    let tb ← parseTables j
+    let v := mkVal tb
+    let part := XsVerif.Lazy.chunkErrs v (fun _ c => lookup tb.static c) k [] (some d) t
+    let deep := (eagerT v [] d t).filter (fun e => !decide (e.1.length < k))
+    let loc := (chunkPairs v k [] (some d) t).all fun p => lookup tb.static p.2.2 == p.2.1
+    return Json.mkObj [("part", natArr (part.map Prod.snd)), ("deep", natArr (deep.map Prod.snd)),
+                       ("cut", natArr ((cutT v (if k == 0 then 1 else k) [] d t).map Prod.snd)),
+                       ("local", loc)]
+  | _ => throw s!"unknown op {op}"
+
+end XsVerif.Driver.C20
+
+def main : IO Unit := XsVerif.Driver.run XsVerif.Driver.C20.handle
